@@ -129,6 +129,7 @@ def run(an: Analysis, rep):
                                                      "state that makes the same call answer differently the second time"))
     rep.run(r127, an, rep)
     rep.run(r128, an, rep)
+    rep.run(r128_fold, an, rep)
     from .common import SharedRules
     from . import c08
     rep.run(c08.r083, an, SharedRules(rep, "R12.5", "data built from a JSON document / code object keeps no reference to a mutable part of its argument (shared with C08's R08.3): "
@@ -211,6 +212,50 @@ def r127(an: Analysis, rep):
     rep.add("R12.7", "process-wide setters examined", True, "code_data/", f"{n} call(s) of {len(PROCESS_SETTERS)} known process-wide setters in the API closures", nontrivial=False)
 
 
+def r128_fold(an: Analysis, rep):
+    """The tuples nested in a frozenset constant: the function that prepares constants for CodeType is folded over witness constants; every tuple object reachable in what
+    it returns must be a new object (CPython interns the strings of those tuples in place - the frozenset itself is replaced by a new one, its member tuples are not)."""
+    from sa.feval import BlockOutcome, ObjEval
+    target = None
+    for f in an.closure("to_code"):
+        if f.cls is None and len(f.params) == 1 and isinstance(f.node, ast.FunctionDef):
+            first = next((st for st in f.node.body if isinstance(st, ast.If)), None)
+            if first is not None and "CodeData" in norm_src(first.test) and any(isinstance(c, ast.Call) and isinstance(c.func, ast.Attribute) and c.func.attr == "to_code" for c in ast.walk(first)):
+                target = f
+    if target is None:
+        raise AnalysisError("the function that prepares a constant for CodeType was not found")
+
+    def resolve(name):
+        r = an.prog.resolve_global(target.module, name, target)
+        return r[1].node if r and r[0] == "func" else None
+
+    def tuples_in(v, out):
+        if isinstance(v, tuple):
+            out.append(v)
+        if isinstance(v, (tuple, frozenset)):
+            for x in v:
+                tuples_in(x, out)
+        return out
+    W = [("a", ("b", 1)), frozenset({("alpha", 1), ("beta", 2)}), (frozenset({("c", 1)}), 7), frozenset({(("deep",), 1)})]
+    shared = []
+    for w in W:
+        ev = ObjEval(resolve, extra={"CodeData": type("CodeData", (), {})})
+        ev.module_assigns = target.module.assigns
+        try:
+            got = ev.call_method(target.node, w)
+        except BlockOutcome:
+            continue
+        except Exception as ex:  # noqa: BLE001
+            raise AnalysisError(f"{target.qual}: not evaluable on the witness constant {w!r} ({type(ex).__name__}: {ex})")
+        mine = {id(t) for t in tuples_in(w, []) if t}
+        if any(id(t) in mine for t in tuples_in(got, []) if t):
+            shared.append(w)
+    rep.add("R12.8", f"{target.qual}::no tuple of the argument reaches CodeType inside a constant", not shared, loc(target.module, target.node),
+            f"{len(W)} witness constants with tuples (nested in tuples and in frozensets): every tuple handed on is a new object" if not shared else
+            f"for the constant {shared[0]!r} a tuple object of the argument itself is handed to CodeType: CPython interns the strings inside constant tuples in place (also of tuples that are "
+            f"members of a frozenset), so to_code() replaces items of tuples owned by its argument (`x in {{('alpha', 1), ('beta', 2)}}` loaded from JSON)")
+
+
 def _union_parts(tg, t):
     if t is None:
         return []
@@ -256,8 +301,4 @@ def r128(an: Analysis, rep):
                 f"the constants handed to CodeType(...) include {fmt_atom(own[0])}, a tuple that belongs to the CodeData being encoded: CPython interns the strings inside constant tuples "
                 f"in place and replaces a frozenset holding strings by a new one, so to_code() changes its argument (afterwards to_json_data() lists the frozenset in another order)",
                 config=vname(V))
-        rep.add("R12.8", f"{f.qual}::no frozenset of the argument with tuple members is handed to CodeType", not own_fs, loc(f.module, call),
-                "every frozenset among the constants that can hold tuples is rebuilt during the call" if not own_fs else
-                f"the constants handed to CodeType(...) include {fmt_atom(own_fs[0])}, a frozenset that belongs to the CodeData being encoded and whose members can be tuples: CPython makes a new "
-                f"frozenset but interns the strings of the member tuples in place, so to_code() replaces items of tuples owned by its argument (`x in {{('alpha', 1), ('beta', 2)}}` loaded from JSON)",
-                config=vname(V))
+        # (frozensets: whether a set is copied can depend on its members - decided by folding the preparation function, see below)
